@@ -40,15 +40,7 @@ type dsUpdater struct {
 
 func (u *dsUpdater) Update(data []byte) {
 	e := ev{"ev": "h", "s": u.s, "k": "next", "n": 0, "id": 0}
-	var p struct {
-		Data *struct {
-			S int `json:"s"`
-			N int `json:"n"`
-		} `json:"data"`
-	}
-	if json.Unmarshal(data, &p) == nil && p.Data != nil {
-		e["id"], e["n"] = p.Data.S, p.Data.N
-	}
+	e["v"], e["id"], e["n"] = observe(data)
 	u.r.rec.add(e)
 }
 
@@ -67,7 +59,18 @@ func (u *dsUpdater) Error(data []byte) {
 		return
 	}
 	if bytes.Contains(data, []byte("upstream service error")) {
-		u.r.rec.add(ev{"ev": "h", "s": u.s, "k": "connerr", "x": "upstream service error"})
+		var p struct {
+			Errors []struct {
+				Extensions struct {
+					CloseCode int `json:"closeCode"`
+				} `json:"extensions"`
+			} `json:"errors"`
+		}
+		code := 0
+		if json.Unmarshal(data, &p) == nil && len(p.Errors) > 0 {
+			code = p.Errors[0].Extensions.CloseCode
+		}
+		u.r.rec.add(ev{"ev": "h", "s": u.s, "k": "connerr", "x": "upstream service error", "n": code})
 		return
 	}
 	e := ev{"ev": "h", "s": u.s, "k": "error", "n": 0, "id": 0}
@@ -110,11 +113,12 @@ func (u *dsUpdater) Subscriptions() map[context.Context]resolve.SubscriptionIden
 	return nil
 }
 
-func newDSClient(ctx context.Context, hc *http.Client) graphql_datasource.GraphQLSubscriptionClient {
+func newDSClient(ctx context.Context, hc *http.Client, ping, pingTO time.Duration) graphql_datasource.GraphQLSubscriptionClient {
 	return graphql_datasource.NewGraphQLSubscriptionClient(ctx,
 		graphql_datasource.WithUpgradeClient(hc),
 		graphql_datasource.WithStreamingClient(hc),
-		graphql_datasource.WithPingInterval(0),
+		graphql_datasource.WithPingInterval(ping),
+		graphql_datasource.WithPingTimeout(pingTO),
 		graphql_datasource.WithAckTimeout(2*time.Minute),
 		graphql_datasource.WithWriteTimeout(2*time.Minute),
 	)
@@ -128,7 +132,10 @@ func dsOptions(s Schedule, t tuple, addr string, sub int) graphql_datasource.Gra
 		Body:          graphql_datasource.GraphQLBody{Query: fmt.Sprintf("subscription { s%d }", sub)},
 	}
 	if t.Payload != "" {
-		o.InitialPayload = json.RawMessage(fmt.Sprintf(`{"p":%q}`, t.Payload))
+		o.InitialPayload = json.RawMessage(t.Payload)
+	}
+	if sub-1 < len(s.Bad) && s.Bad[sub-1] {
+		o.Body.Variables = json.RawMessage(badVariables)
 	}
 	if s.Mode == "sse" {
 		o.URL = "http://" + addr + t.Path
